@@ -77,24 +77,49 @@ Theorem C06_bulk_no_fault_nil : forall H mode jobs src fault store0 nw sched,
 Proof. exact bulk_no_fault_nil. Qed.
 Print Assumptions C06_bulk_no_fault_nil.
 
+(* The bulk writers cannot get stuck and terminate: as long as the feeder or a worker has not returned
+   some thread can step (whatever faults and cancellations happened), and every enabled step
+   decreases a measure, so every run of enabled steps is at most [bmu init] long. *)
+Theorem C06_bulk_deadlock_free : forall H mode jobs src fault can_cancel store0 nw sched,
+  let s := run (bstep H mode jobs src fault can_cancel) sched (binit store0 nw) in
+  0 < nw -> bfinal s = false -> exists t, bstep H mode jobs src fault can_cancel s t <> None.
+Proof. exact bulk_deadlock_free. Qed.
+Print Assumptions C06_bulk_deadlock_free.
+
+Theorem C06_bulk_terminates : forall H mode jobs src fault can_cancel store0 nw sched s',
+  run_strict (bstep H mode jobs src fault can_cancel) sched (binit store0 nw) = Some s' ->
+  length sched <= bmu jobs (binit store0 nw).
+Proof. exact bulk_terminates. Qed.
+Print Assumptions C06_bulk_terminates.
+
 (* ChunkStorage used directly with retries (no errgroup): a failed ws.StoreChunk unmarks the id,
-   so the retry stores the chunk ... *)
-Theorem C06_retry_after_store_error : forall proc st i b,
+   so the retry stores the chunk (before and after the fix of the HasChunk path) ... *)
+Theorem C06_retry_after_store_error : forall fixed proc st i b,
   memN i proc = false -> has st i = false ->
-  let '(r1, proc1, st1) := cs_store_seq proc st i b false true in
-  let '(r2, proc2, st2) := cs_store_seq proc1 st1 i b false false in
+  let '(r1, proc1, st1) := cs_store_seq fixed proc st i b false true in
+  let '(r2, proc2, st2) := cs_store_seq fixed proc1 st1 i b false false in
   r1 = false /\ r2 = true /\ has st2 i = true.
 Proof. exact cs_retry_after_store_error. Qed.
 Print Assumptions C06_retry_after_store_error.
 
-(* ... but a failed ws.HasChunk leaves it marked: the retry returns nil and nothing is stored
-   (finding chunkstorage/retry-after-haschunk-error-skips-store, reproduced on the code). *)
+(* ... and so does a failed ws.HasChunk in the current code (the deferred unmark precedes the call). *)
+Theorem C06_retry_after_has_error : forall proc st i b,
+  memN i proc = false -> has st i = false ->
+  let '(r1, proc1, st1) := cs_store_seq true proc st i b true false in
+  let '(r2, proc2, st2) := cs_store_seq true proc1 st1 i b false false in
+  r1 = false /\ r2 = true /\ has st2 i = true.
+Proof. exact cs_retry_after_has_error. Qed.
+Print Assumptions C06_retry_after_has_error.
+
+(* Before "fix: ChunkStorage unmarks a chunk when checking the store for it fails" the id stayed
+   marked: the retry returned nil and nothing was stored (finding
+   chunkstorage/retry-after-haschunk-error-skips-store, reproduced on the code with the fix reverted). *)
 Theorem C06_retry_after_has_error_refuted :
   exists proc st i b,
-    let '(r1, proc1, st1) := cs_store_seq proc st i b true false in
-    let '(r2, proc2, st2) := cs_store_seq proc1 st1 i b false false in
+    let '(r1, proc1, st1) := cs_store_seq false proc st i b true false in
+    let '(r2, proc2, st2) := cs_store_seq false proc1 st1 i b false false in
     r1 = false /\ r2 = true /\ has st2 i = false.
-Proof. exact cs_retry_after_has_error_refuted. Qed.
+Proof. exact cs_retry_after_has_error_prefix_refuted. Qed.
 Print Assumptions C06_retry_after_has_error_refuted.
 
 (* ---- Non-vacuity ---- *)
